@@ -211,6 +211,17 @@ def observe_history(rid, cfg, rng):
     sf, chart, exp = build(cfg, rng)
     out = [measure(rid, cfg, sf, chart, exp, rng)]
     for step in range(rng.randint(1, 3)):
+        # a TimingData built BEFORE the next edit and read only AFTER it: it describes the objects as they were
+        # when it was built (all five fields are taken at construction)
+        pre = None
+        if rng.random() < 0.5:
+            from simfile.timing import TimingData
+            try:
+                pre = (TimingData(sf, chart) if chart is not None else TimingData(sf), cfg)
+                if rng.random() < 0.5:
+                    pre[0].offset          # (one field touched early, the others late)
+            except Exception:  # noqa
+                pre = None
         if chart is not None and cfg["chart"] == "ssc" and rng.random() < 0.8:
             cfg = edit_chart(chart, cfg, rng)
         elif cfg["kind"] == "ssc":
@@ -222,16 +233,20 @@ def observe_history(rid, cfg, rng):
             cfg = dict(cfg, ver=ver)
         else:
             break
+        if pre is not None:
+            out.append(measure("%s.%d.built-before-the-edit" % (rid, step + 1), pre[1], sf, chart, exp, rng, td=pre[0]))
         out.append(measure("%s.%d" % (rid, step + 1), cfg, sf, chart, exp, rng))
     return out
 
 
-def measure(rid, cfg, sf, chart, exp, rng=None):
+def measure(rid, cfg, sf, chart, exp, rng=None, td=None):
     from simfile.timing import TimingData, BeatValues
     from simfile.timing.displaybpm import displaybpm, StaticDisplayBPM, RangeDisplayBPM, RandomDisplayBPM
     rec = {"id": rid, "cfg": cfg, "st": "ok", "td": {}, "disp": [], "nodisp": False}
+    prebuilt = td is not None
     try:
-        td = TimingData(sf, chart) if chart is not None else TimingData(sf)
+        if td is None:
+            td = TimingData(sf, chart) if chart is not None else TimingData(sf)
     except Exception as e:  # noqa
         rec["st"] = type(e).__name__
         return rec
@@ -250,6 +265,9 @@ def measure(rid, cfg, sf, chart, exp, rng=None):
     for n in ("bpms", "stops", "delays", "warps"):
         rec["td"][n] = side_of(n, getattr(td, n))
     rec["td"]["offset"] = "s" if td.offset == Decimal(OFF["s"]) else ("c" if td.offset == Decimal(OFF["c"]) else ("zero" if td.offset == 0 else "other"))
+    if prebuilt:
+        rec["nodisp"] = True          # (displaybpm reads the objects as they are now)
+        return rec
     src_is_chart = (cfg["kind"] == "ssc" and cfg["chart"] == "ssc")
     # the displayed-BPM clause is claimed when the source that will be used has a non-empty BPMS
     if cfg["chart"] == "ssc" and cfg["tp"][0] != "nonempty" and rec["td"]["bpms"] != "s":
@@ -370,6 +388,11 @@ def run(ctx):
             recs.extend(observe_history(i, cfg, rng))
         else:
             recs.append(observe(i, cfg, rng))
+    # whole sessions (System.tla): the source rule composed with the parsers, the timeline and the chart's notes
+    from . import system_common as sysc
+    sessions, sverdict = sysc.run_sessions(ctx, 150 if quick else 3000, ctx.seed + 15, timing_bias=True)
+    sysc.judge(ctx, "C15", sessions, sverdict, {"timenotes"}, "timing a chart's notes inside a session (which object supplies the timing data)")
+    sysc.mc_system(ctx, "C15", (sysc.MC_RUNS["C15"][0] if ctx.quick else sysc.MC_RUNS["C15"][1]), ops={"timenotes"})      # MC_System, focus "timing"
     verdict = trace.validate(ctx, "Trace_TimingSource", DIRS, recs)
     for r in recs:
         cl = verdict[r["id"]]["clause"]
